@@ -14,22 +14,49 @@ import tempfile
 VERIF = os.path.dirname(os.path.dirname(os.path.abspath(__file__)))
 
 MODES = {
-    'C01': ['bnd_doc', 'bnd_tables'],
+    'C01': ['bnd_doc', 'bnd_tables', 'c07_ol', 'c01_colspan', 'c01_specificity', 'c20_nth', 'c01_engine'],
     'C02': ['bnd_tables', 'bnd_doc'],
     'C03': ['bnd_tables', 'bnd_doc'],
-    'C07': ['bnd_c07'],
-    'C11': ['bnd_doc'],
-    'C14': ['bnd_c14'],
-    'C16': ['bnd_doc'],
-    'C20': ['bnd_c20'],
+    'C04': ['bnd_c04'],
     'C05': ['bnd_tables'],
     'C06': ['bnd_tables'],
+    'C07': ['bnd_c07', 'c07_ol'],
     'C08': ['bnd_c08'],
-    'C09': ['bnd_c09'],
+    'C09': ['bnd_c09', 'c16_affix'],
+    'C11': ['bnd_doc'],
+    'C12': ['bnd_c12'],
     'C13': ['bnd_c13'],
+    'C14': ['bnd_c14', 'c14_hardwrap'],
+    'C15': ['bnd_c15'],
+    'C16': ['bnd_doc', 'c16_prefix', 'c16_affix', 'c16_trivial'],
     'C18': ['bnd_c18'],
+    'C19': ['c19', 'c19_inherit'],
+    'C20': ['bnd_c20', 'c20_nth'],
+}
+# enumerations written earlier as replay searchers (they stop at the first hit and print `NONE <cases>` otherwise); bound stated here
+LEGACY_BOUND = {
+    'c07_ol': '<ol start=s> with s in {i64::MAX, MAX-1, i64::MIN, 0, -1, 98}, 1..3 items, widths 6 and 30: no panic',
+    'c01_colspan': 'tables with colspan in {0, 1, 2, 3, usize::MAX, 2^32} in 2 rows x 2 cells, widths 1, 5, 20: no panic',
+    'c01_specificity': 'one selector with 65 536 class components (run on a deep stack): no panic in the specificity counters',
+    'c20_nth': ':nth-child(an+b) with a, b in {0, +-1, +-2, +-2147483647, 2147483647, values beyond i32} on a 3-item list: no panic, and the items coloured equal the integer definition',
+    'c01_engine': 'text engine totality with a 2 s watchdog: 8 documents x widths 1..6 x max_wrap_width in {none, 0, 1, 3} x padding: returns',
+    'c16_prefix': '3 decorators (ASCII, 2-byte width-1, 3-byte width-2 prefixes) x 5 documents x widths 6..=20: no panic, lines within the width',
+    'c16_affix': 'decorator with visible affixes: 5 elements x 4 enclosing elements x unicode strikeout on/off x widths 80, 12: prefix + text + suffix appear verbatim',
+    'c16_trivial': 'TrivialDecorator on 10 documents: output characters == document text characters',
+    'c19': 'all pairs of colour declarations on one element: 4 origins (agent, user, author, inline) x importance x 4 selectors of different specificity, both source orders: the winner is the CSS cascade winner',
+    'c19_inherit': '9 documents: the colour of a token is the one of the nearest ancestor-or-self with a winning declaration',
+    'c14_hardwrap': '3 documents x widths 3..=8: an id whose first word is hard-wrapped still yields exactly one fragment marker',
 }
 STANDS_FOR = {
+    'bnd_c04': 'add_inline_text / add_text / flush_word / flush_word_hard_wrap as composed by do_render_node over text nodes and inline elements, against a reference greedy wrapper',
+    'bnd_c12': 'the pre path as a whole: process_dom_node (pre, br), do_render_node, new_line_hard, add_text in preserving mode',
+    'bnd_c15': 'option plumbing through size estimation (calc_size_estimate), sub-renderers and tables: each option changes only what it documents',
+    'c07_ol': 'do_render_node Ol arm arithmetic with extreme start values', 'c01_colspan': 'tbody_to_render_tree / RenderTable::new with extreme colspans',
+    'c01_specificity': 'Selector::specificity counters at their limit', 'c20_nth': 'nth-child parser and arithmetic at the i32 limits',
+    'c01_engine': 'termination of the text engine at tiny widths', 'c16_prefix': 'prefix measurement in do_render_node for custom decorators',
+    'c16_affix': 'affix placement by start_X/end_X through do_render_node', 'c16_trivial': 'TrivialDecorator through the whole pipeline',
+    'c19': 'computed_style + merge_computed_style + maybe_update as a whole', 'c19_inherit': 'colour push/pop around children in do_render_node',
+    'c14_hardwrap': 'fragment marker through flush_word_hard_wrap',
     'bnd_doc': 'the whole pipeline on table-free documents (parse, process_dom_node, do_render_node and its closures, tree_map_reduce, render_tree_to_string): '
                'no panic, width bound, overflow option, and with the trivial decorator the document text preserved in order',
     'bnd_c07': 'do_render_node Ol/Ul arms with their closures, calc_ol_prefix_size, append_subrender as wholes: numbering, common marker width, indentation',
@@ -104,6 +131,11 @@ def run(prop, tier, exe, budget_s=600):
                     summary = json.loads(line[8:])
                 except ValueError:
                     pass
+        if summary is None and mode in LEGACY_BOUND:
+            none = [l for l in r.stdout.split('\n') if l.startswith('NONE ')]
+            if none or rec['found']:
+                n = int(none[0].split()[1]) if none else None
+                summary = {'cases': n, 'distinct': n, 'violations': len(rec['found']), 'bound': LEGACY_BOUND[mode] + (' (stopped at the first hit)' if rec['found'] else ''), 'samples': []}
         if summary is None:
             rec['error'] = 'no summary line (exit code %s): %s' % (r.returncode, r.stderr[-300:])
         else:
